@@ -36,14 +36,23 @@ theorem c13_shapes_disciplined_table :
     sequence of calls of `Lysosome` methods (public or not), each along any finite path (any branch taken or not,
     callbacks run any number of times), under any schedule, never reach a configuration where somebody still has
     work and nobody can move — and `n` steps use up exactly `n` of the finitely many lock events, so no schedule
-    runs forever.  Stated for whatever lock kind the source has (`reentOf lockKind = some reent`). -/
+    runs forever.  Stated for whatever lock kind the source has (`reentOf lockKind = some reent`).  A call that
+    leaves a method by an exception (autophagy's TypeError, a raising callback inside `ingest`'s `with`) performs the
+    `with`-balanced closure of a prefix of a path; E3 accepts only `with self._lock:` (no explicit acquire/release),
+    and in the extracted table no method has a second `with` block after a point where an exception can arise, so
+    every such sequence is itself a `Path` (the remaining calls not taken, callbacks done).  This last fact is read off
+    the table, not proved for arbitrary shapes. -/
 theorem c13_every_call_returns_threads (reent : Bool) (hk : reentOf lockKind = some reent) (threads : List Thr)
     (h : ∀ t ∈ threads, t.depth = 0 ∧ CallsProg methods tableMethods t.prog) (n : Nat) (c : List Thr)
     (hs : StepsN reent n threads c) :
     (Final c ∨ ∃ c', Step reent c c') ∧ measure threads = measure c + n :=
   threads_return c13_shapes_disciplined_table.2 hk threads h hs
 
-/-- Sequentially, for any configuration and history (including items whose `created_at` is far in the past or the
+/-- (corollary / sanity check — in the model the only way not to return is `ingest` re-acquiring a non-reentrant
+    lock, so this restates "the extracted lock kind is re-entrant"; what carries the clause is
+    `c13_every_call_returns_threads` + E3 for lock-induced hangs, and `c13_translated_loops_bounded_table` + the
+    agreement theorems for loops: the methods as translated from the source are total functions equal to the model's
+    steps.)  Sequentially, for any configuration and history (including items whose `created_at` is far in the past or the
     future, or timezone-aware): every call gives control back to its caller — with a result, or (only `autophagy`
     meeting a timezone-aware `created_at`) with an exception after which the lock is free and nothing has changed —
     never `hang`, never the abandoned-object marker; including the ingest that reaches the auto-digest threshold or
@@ -161,6 +170,35 @@ theorem c13_conservation (cfg : Cfg) (ops : List Op) :
   simp only [State.ingested]
   omega
 
+/-- The same when the public settings are re-assigned between calls (`max_queue_size`, `auto_digest_threshold`,
+    `retention_period`, `on_toxic`, the digester table: every call of the history runs under its own configuration):
+    the five places still partition the ingested items and the counters are their sizes. -/
+theorem c13_fate_partition_changing_config (hist : List (Cfg × Op)) :
+    let s := runC init hist
+    s.fates.Perm s.items ∧ s.fates.Nodup ∧ s.items.map (·.seq) = List.range s.ingested ∧
+    s.digested = s.gDigested.length ∧ s.reported + s.autoLogged = s.gErrored.length ∧
+    s.emLogged = s.gEmDropped.length ∧ s.expiredRet = s.gExpired.length := by
+  intro s
+  have h : Acct s := runC_acct hist init init_acct
+  have hpend : s.gPending = [] := runC_pending hist init
+  have hperm : s.fates.Perm s.items := by
+    rw [List.perm_iff_count]
+    intro it
+    have := h.occ_eq it
+    simp only [State.fates, List.count_append, occ, hpend, List.map_nil, List.count_nil] at this ⊢
+    omega
+  have hnd : s.items.Nodup := by
+    have : (s.items.map (·.seq)).Nodup := by rw [h.seqs]; exact List.nodup_range
+    exact List.Pairwise.of_map (·.seq) (fun a b hab e => hab (by rw [e])) this
+  exact ⟨hperm, hperm.nodup_iff.mpr hnd, h.seqs, h.dig, h.err, h.em, h.exp⟩
+
+/-- … and the queue bound, as long as `max_queue_size` itself keeps one value `m ≥ 2` (threshold, retention,
+    digesters, callback may change at will).  (Lowering `max_queue_size` on a live object leaves the queue above the new
+    bound until enough ingests have run: the bound is an invariant only for a constant capacity.) -/
+theorem c13_queue_bounded_changing_config (m : Nat) (h2 : 2 ≤ m) (hist : List (Cfg × Op))
+    (hm : ∀ co ∈ hist, co.1.maxQ = m) : (runC init hist).queue.length ≤ m :=
+  runC_queue_bound m h2 hist init hm (by simp [init])
+
 /-- The same for several threads at the level of atomic actions (whole `ingest`/`autophagy` calls under the lock,
     `digest` split into its locked pop and one loop iteration per popped item, interleaved arbitrarily among any
     number of threads): at every moment each ingested item is in exactly one of the five places or pending in
@@ -274,6 +312,59 @@ theorem c13_toxic_callback_exactly_once_when_processed (cfg : Cfg) (f : Item →
       omega
   · simpa [hty] using h0
 
+/-- For ANY configuration — a custom digester registered for TOXIC_BYPRODUCT, no callback at all, any callback — and
+    any history: no item is handed to `on_toxic` twice; whatever was handed to it is a sensitive item that was
+    processed (digested, errored or emergency-dropped) by the built-in toxic digester with a callback installed (so
+    with `on_toxic = None` or a custom toxic digester the callback log stays empty); and an item that is still queued
+    or was removed by autophagy has not been handed to it. -/
+theorem c13_toxic_callback_at_most_once_any_config (cfg : Cfg) (ops : List Op) :
+    let s := run cfg init ops
+    ∀ it, s.toxicLog.count it ≤ 1 ∧
+      (it ∈ s.toxicLog → it.ty = .toxic ∧ cfg.toxDig = none ∧ cfg.onToxic.isSome = true ∧
+        it ∈ s.gDigested ++ s.gErrored ++ s.gEmDropped) ∧
+      (it ∈ s.queue ++ s.gExpired → it ∉ s.toxicLog) := by
+  intro s it
+  have hs : s = run cfg init ops := rfl
+  clear_value s
+  subst hs
+  have ht := run_toxG cfg ops init (by intro it; simp [init]) it
+  obtain ⟨_, hnd, _⟩ := c13_fate_partition cfg ops
+  have hle := (List.nodup_iff_count.mp hnd) it
+  simp only [State.fates, List.count_append] at hle
+  cases hc : callsToxic cfg it
+  case true =>
+    simp only [hc, if_true] at ht
+    refine ⟨by omega, fun _ => ?_, fun hm => ?_⟩
+    · obtain ⟨a, b, c⟩ := callsToxic_true hc
+      refine ⟨a, b, c, ?_⟩
+      rename_i hm
+      have := List.count_pos_iff.mpr hm
+      have h2 : 0 < (List.count it (run cfg init ops).gDigested + List.count it (run cfg init ops).gErrored +
+          List.count it (run cfg init ops).gEmDropped) := by omega
+      rw [← List.count_pos_iff]
+      simp only [List.count_append]
+      omega
+    · intro hin
+      have h1 := List.count_pos_iff.mpr hin
+      have h2 := List.count_pos_iff.mpr hm
+      simp only [List.count_append] at h2
+      omega
+  case false =>
+    simp [hc] at ht
+    have hz : it ∉ (run cfg init ops).toxicLog := List.count_eq_zero.mp ht
+    exact ⟨by omega, fun hm => absurd hm hz, fun _ => hz⟩
+
+
+/-- (the reading of "reach the toxic callback exactly once" that holds on the code) A sensitive item removed by
+    `autophagy` is discarded WITHOUT the callback ever running: here one sensitive item is ingested with a callback
+    installed, the retention period passes, autophagy removes it — expired, callback log empty.  "Exactly once" is
+    proved for the sensitive items that were processed (`c13_toxic_callback_exactly_once_when_processed`); for
+    every other item, expired ones included, the count is zero (`c13_toxic_callback_at_most_once_any_config`). -/
+theorem c13_toxic_expired_never_reaches_callback_witness :
+    let s := run ⟨8, 8, 10, true, fun _ => .ret [], none, some fun _ => true⟩ init
+      [.ingest 1 .toxic 1 .now, .advance 10, .autophagy]
+    s.gExpired.map (·.id) = [1] ∧ s.toxicLog = [] ∧ s.queue = [] ∧ s.gDigested = [] := by decide
+
 /-- Both toxic clauses for several threads (atomic actions as in `c13_fate_partition_concurrent`): no bin entry
     from a sensitive item; the callback has run exactly once for every sensitive item that has been processed and
     never for any other (queued, expired, pending, or not sensitive). -/
@@ -324,6 +415,17 @@ local macro "loop_body" c:term : tactic => `(tactic| first
      simp only [digIter, pyCall_fst, pyCall_snd]
      by_cases h1 : succeeds $c it <;> by_cases h3 : (keysOf $c it).isEmpty <;> simp_all [dictUpdate]; done))
 
+/-- (table) Every entry point (`ingest`, `ingest_error`, `ingest_sensitive`, `digest`, `autophagy`,
+    `clear_recycling_bin`, the toxic digester) and every helper it reaches was accepted by the translator: the source
+    has no `while`, no recursion among these methods, no generator; every `for` runs over a finite list that is fixed
+    when the loop starts and that the loop body was checked not to mutate in place (`Tr.loops`).  Each translated
+    method is therefore a total Lean function by structural recursion (`List.foldl` / `List.filter`), and the
+    agreement theorems below prove these functions equal to the model's steps: this — not the model's `hang` flag — is
+    what says that a call cannot spin (a change like "loop while the queue is at the threshold" makes `ingest`
+    untranslatable: this table theorem and `c13_translation_agrees_ingest` fail).  Foreign code (digesters,
+    callbacks) is assumed to return. -/
+theorem c13_translated_loops_bounded_table : Tr.allLoopsBounded = true := by decide
+
 /-- (table) Evaluated on the real class: a freshly constructed `Lysosome` stores one of its own methods in the
     digester table for TOXIC_BYPRODUCT — the method translated as `Tr.toxic_digester` — and the table has an entry
     for every waste type. -/
@@ -339,8 +441,8 @@ theorem c13_translation_agrees_digest (cfg : Cfg) (s : State) (k : Option Int) :
     cases h : pyTruthyOInt k <;>
       simp only [Tr.digest, lysTr, h, pySliceTo_truthy, drop_length_take, Bool.false_eq_true, if_false, if_true]
     all_goals simp (disch := loop_body cfg) only [foldl_dig cfg]
-    · simp [pyDigestCore, sliceCount_falsy _ _ h]
-    · simp [pyDigestCore]
+    · simp [pyDigestCore, sliceCount_falsy _ _ h, decide_nil_unit, decide_len0_unit]
+    · simp [pyDigestCore, decide_nil_unit, decide_len0_unit]
   rw [h, pyDigestCore_conc]
   rfl
 
@@ -355,8 +457,8 @@ theorem c13_translation_agrees_ingest (cfg : Cfg) (hre : cfg.reent = true) (s : 
     cases h : pyTruthyOInt k <;>
       simp only [Tr.digest, lysTr, h, pySliceTo_truthy, drop_length_take, Bool.false_eq_true, if_false, if_true]
     all_goals simp (disch := loop_body cfg) only [foldl_dig cfg]
-    · simp [pyDigestCore, sliceCount_falsy _ _ h]
-    · simp [pyDigestCore]
+    · simp [pyDigestCore, sliceCount_falsy _ _ h, decide_nil_unit, decide_len0_unit]
+    · simp [pyDigestCore, decide_nil_unit, decide_len0_unit]
   have h : ∀ (p : PyS) (it : Item), Tr.ingest cfg p it = (pyIngest cfg p it, ()) := by
     intro p it
     simp only [Tr.ingest, lysTr, hd]
@@ -395,7 +497,7 @@ theorem c13_translation_agrees_autophagy (cfg : Cfg) (s : State) :
     unfold pyAutophagy
     by_cases h : p.queue.any (·.tz)
     · simp [h]
-    · simp [h, length_sub_filter, hk]
+    · simp [h, length_sub_filter, hk, not_decide_le, not_decide_lt]
   rw [h, pyAutophagy_conc]
   rfl
 
@@ -521,6 +623,15 @@ example :
     s.queue.map (·.id) = [] ∧ s.gEmDropped.map (·.id) = [1] ∧ s.gDigested.map (·.id) = [2, 6] ∧
     s.gExpired.map (·.id) = [3, 4] ∧ s.gErrored.map (·.id) = [5] ∧ s.toxicLog.map (·.id) = [2] ∧
     s.bin.map (·.1) = [106] ∧ s.ingested = 6 ∧ 2 ≤ cfgEx.maxQ ∧ cfgEx.toxDig = none := by decide
+
+/-- a history with settings re-assigned between calls (threshold lowered, then a raising digester installed) meeting
+    the hypothesis of `c13_queue_bounded_changing_config` (capacity constant 4) -/
+example :
+    let c1 : Cfg := ⟨4, 8, 10, true, fun _ => .ret [], none, none⟩
+    let c2 : Cfg := ⟨4, 2, 10, true, fun _ => .raise, none, none⟩
+    let hist := [(c1, Op.ingest 1 .expired 1 .now), (c1, .ingest 2 .expired 1 .now), (c2, .ingest 3 .expired 1 .now)]
+    (∀ co ∈ hist, co.1.maxQ = 4) ∧ (runC init hist).queue.map (·.id) = [2, 3] ∧ (runC init hist).autoLogged = 1 := by
+  decide
 
 /-- the auto-digest path with a failing item: the error is logged, the item is accounted for -/
 example :
